@@ -366,3 +366,11 @@ class Socks2(object):
             if x > 5:
                 self.sock_list.popleft()
         return ok
+
+
+def decide_whole(data, flag):
+    if len(data) == 1:
+        return 1
+    if len(data) == 1 or flag:
+        return 2
+    return 3 if len(data) == 1 else 4
